@@ -36,7 +36,7 @@ def values(obj, _d=0):
     if isinstance(obj, (list, tuple)):
         return ('l', tuple(values(o, _d + 1) for o in obj))
     if hasattr(obj, '__dict__'):
-        return ('o', type(obj).__name__, tuple((n, values(getattr(obj, n), _d + 1)) for n in sorted(vars(obj)) if n != 'prev_layer'))
+        return ('o', type(obj).__name__, tuple((n, values(getattr(obj, n), _d + 1)) for n in sorted(vars(obj)) if n != 'prev_layer' and not n.startswith('_')))
     return ('r', repr(obj))
 
 
